@@ -27,10 +27,10 @@ The method, as coded:
 5. the result is added to `ncvar_names` and, when `role` and `dimsize` were
    given, appended to the role's list.
 
-Step 4 comes *after* the uniqueness test of step 3 in the code as it stands
-(`request false`): `'a b'` is tested as `'a b'` and returned as `'a_b'`, which may
-be in use.  `request true` is the method after `fixes/C08-netcdf-name-blanks.patch`
-(blanks replaced first).
+Step 4 came *after* the uniqueness test of step 3 before /repo commit 5c79a06
+(`request false`): `'a b'` was tested as `'a b'` and returned as `'a_b'`, which may
+be in use.  `request true` is the method as it is now (blanks replaced first; the repair
+was proposed as `fixes/C08-netcdf-name-blanks.patch`).
 
 The `while` loop is modelled with fuel `|existing|`: among `base_1 … base_{n+1}`
 one is free (pigeonhole; proved in `Lemmas/NcNames.lean`), so the fuel never
